@@ -1,4 +1,5 @@
 """C15 - malformed patterns are rejected, not reinterpreted."""
+import parsetie
 import t1
 import t2
 from vlib import hexs, unhexs
@@ -64,6 +65,8 @@ def run(ck):
                    rule="%d malformed instances x 8 contexts + %d controls x 8 contexts; every input distinct" % (len(MALFORMED), len(WELLFORMED_CONTROLS)))
     # no token of an accepted pattern is silently dropped: identifiers and string literals of the input reappear in the AST
     inputs, outs2 = t1.run(ck)
+    parsetie.record(ck, [t for _, t, _ in [(c[0], c[2], 0) for c in cases]], outs, "C15: the listed malformed classes and controls")
+    parsetie.record(ck, [t for _, t in inputs], outs2, "C15: single-edit corruptions")
     toks = t1.tokenize(ck, [t for _, t in inputs])
     dropped = 0
     checked = 0
